@@ -67,6 +67,8 @@ def run(ctx):
         g = family.draw_group(rng, rng.choice(["v2x3", "fuse", "s0v", "m2x2"]), kind="shampoo", method="eigen", freq=1, start=1, tol=rng.choice([0, 1, 3]))
         g["override"] = rng.choice([0, 1, 2])
         g["beta2"] = 1.0
+        g.pop("hyper_style", None)
+        g["lr"] = [0.0, 0.0625, 0.03125]
         if i % 3 == 2:
             # float32 parameters with float64 factors: a root that is finite in float64 can exceed 3.4e38 (an exactly zero statistic
             # - one-hot gradients - with a tiny epsilon)
